@@ -140,6 +140,8 @@ func zzCheckAppended(ds *zzDag, out ipld.Node, all [][]byte, width int, prefix c
 	zzTrickleShape("C08", root, -1, width)
 	if verifrt.Param("CANON", 0) == 1 {
 		verifrt.Assert("C08.trickle-canonical-fill", zzTrickleFilled(root, width))
+		ref := zzLayout8(&zzDag{}, all, width, prefix, raw)
+		verifrt.Assert("C08.append-equals-layout", zzBytesEq(ref.Cid().Bytes(), out.Cid().Bytes()))
 	}
 	return root
 }
